@@ -2,6 +2,7 @@ package types
 
 import (
 	"io"
+	"strings"
 
 	"github.com/lyraproj/issue/issue"
 
@@ -116,7 +117,7 @@ func (e *deferred) Resolve(c px.Context, scope px.Keyed) px.Value {
 		da = ResolveDeferred(c, da, scope).(*Array)
 	}
 
-	if fn[0] == '$' {
+	if strings.HasPrefix(fn, `$`) {
 		vn := fn[1:]
 		vv, ok := scope.Get(stringValue(vn))
 		if !ok {
